@@ -22,19 +22,19 @@ type harness struct {
 }
 
 type checkRun struct {
-	prop      string
-	tier      string
-	ld        *loaded
-	harnesses []harness
-	cfg       sym.Config
-	verbose   bool
-	t0        time.Time
-	seed      int
-	noNative  bool
-	race      bool
+	prop                         string
+	tier                         string
+	ld                           *loaded
+	harnesses                    []harness
+	cfg                          sym.Config
+	verbose                      bool
+	t0                           time.Time
+	seed                         int
+	noNative                     bool
+	race                         bool
 	nativeRace, nativeRaceAlways bool
-	raceSeen  map[string]string // package dir -> first DATA RACE report of the native run
-	crashed   map[string]string // package dir -> crash text when the native test process died (unrecoverable panic)
+	raceSeen                     map[string]string // package dir -> first DATA RACE report of the native run
+	crashed                      map[string]string // package dir -> crash text when the native test process died (unrecoverable panic)
 }
 
 type knownFinding struct {
@@ -68,31 +68,33 @@ func loadKnown() map[string]knownFinding {
 
 // vtCase mirrors vt.Case
 type vtCase struct {
-	ID      string         `json:"id"`
-	Harness string         `json:"harness"`
-	Inputs  map[string]any `json:"inputs"`
-	Repeat  int            `json:"repeat,omitempty"`
+	ID        string         `json:"id"`
+	Harness   string         `json:"harness"`
+	Inputs    map[string]any `json:"inputs"`
+	Repeat    int            `json:"repeat,omitempty"`
+	Candidate bool           `json:"candidate,omitempty"`
 }
 type vtResult struct {
-	ID       string            `json:"id"`
-	Harness  string            `json:"harness"`
-	Failed   []string          `json:"failed"`
-	Panic    string            `json:"panic"`
-	Stack    string            `json:"stack"`
-	Reached  []string          `json:"reached"`
-	Obs      map[string]string `json:"obs"`
-	Rejected bool              `json:"rejected"`
-	Leaked   int               `json:"leaked"`
-	Known    []string          `json:"known"`
-	Runs     int               `json:"runs,omitempty"`
-	HookCalls int              `json:"hook_calls,omitempty"`
+	ID        string            `json:"id"`
+	Harness   string            `json:"harness"`
+	Failed    []string          `json:"failed"`
+	Panic     string            `json:"panic"`
+	Stack     string            `json:"stack"`
+	Reached   []string          `json:"reached"`
+	Obs       map[string]string `json:"obs"`
+	Rejected  bool              `json:"rejected"`
+	Leaked    int               `json:"leaked"`
+	Known     []string          `json:"known"`
+	Runs      int               `json:"runs,omitempty"`
+	HookCalls int               `json:"hook_calls,omitempty"`
+	Skipped   bool              `json:"skipped,omitempty"`
 }
 
 type candidate struct {
-	h     harness
-	v     sym.Violation
+	h      harness
+	v      sym.Violation
 	caseID string
-	path  *sym.PathResult
+	path   *sym.PathResult
 }
 
 func (r *checkRun) tierVals() map[string]int {
@@ -140,9 +142,9 @@ func (r *checkRun) execute() int {
 	casesByDir := map[string][]vtCase{}
 	var cands []*candidate
 	type valSample struct {
-		h    harness
-		p    *sym.PathResult
-		id   string
+		h  harness
+		p  *sym.PathResult
+		id string
 	}
 	var samples []valSample
 	nextID := 0
@@ -186,7 +188,7 @@ func (r *checkRun) execute() int {
 				c := &candidate{h: hr.h, v: v, caseID: id, path: p}
 				cands = append(cands, c)
 				if v.Model != nil {
-					vc := vtCase{ID: id, Harness: hr.h.fn.Name(), Inputs: r.withBounds(boundInputs(v.Model))}
+					vc := vtCase{ID: id, Harness: hr.h.fn.Name(), Inputs: r.withBounds(boundInputs(v.Model)), Candidate: true}
 					if p.SchedPoints > 0 {
 						vc.Repeat = 2000 // schedule-dependent: stress (with yield-point perturbation) until it shows
 					}
@@ -236,6 +238,11 @@ func (r *checkRun) execute() int {
 			}
 		}
 		native, err = r.runNative(casesByDir)
+		if r.verbose {
+			for d, c := range r.crashed {
+				fmt.Printf("native test process crashed in %s:\n%s\n", d, c)
+			}
+		}
 		if err != nil {
 			nativeErr = err.Error()
 		}
@@ -256,6 +263,10 @@ func (r *checkRun) execute() int {
 			nr, ok := native[s.id]
 			if !ok {
 				mismatches = append(mismatches, s.h.fn.Name()+": native result missing for "+s.id)
+				continue
+			}
+			if nr.Skipped {
+				// not run natively: earlier samples of this harness hung (reported through the deadlock candidates)
 				continue
 			}
 			if nr.Rejected {
@@ -542,7 +553,6 @@ type hresT struct {
 	h  harness
 	hr *sym.HarnessResult
 }
-
 
 // runNative builds the overlay and runs the cases through `go test`.
 func (r *checkRun) runNative(casesByDir map[string][]vtCase) (map[string]vtResult, error) {
